@@ -28,7 +28,7 @@ func init() {
 			"R3: every class variable is initialised from a distinct foreign variable or by fmt.Errorf/errors.New with a constant format that contains no %w, so the classes are pairwise independent values. " +
 			"R4: in every scenario GRPCWrap returns its argument unchanged when status.Code(err) is not Unknown and status.Error(GRPCStatusCode(err), err.Error()) otherwise; EmbedObject produces <marker><payload computed from o><marker>...%w err with the marker constant ExtractObject separates the message by; ExtractObject unmarshals the text between the markers exactly when the message holds exactly two markers (Split into 3 parts, or Cut, Cut and no marker in the tail). " +
 			"R5: in every scenario Is(err, target) is true exactly when errors.Is(err, target) holds or c2e(status.Code(err)) is target. " +
-			"R6: the result of FromGRPCError is a function of status.Code(err) only; GRPCStatusCode returns status.Code(err) when that is not Unknown, and otherwise finds the class by errors.Is(err, class) for every class of the class->code table and returns the code of that entry. R7: no map keyed by error is indexed with an error passed in by the caller (an unhashable dynamic type would panic).",
+			"R6: the result of FromGRPCError is a function of status.Code(err) only; GRPCStatusCode returns status.Code(err) when that is not Unknown, and otherwise finds the class by errors.Is(err, class) for every class of the class->code table and returns the code of that entry. R7: no map keyed by error is indexed with an error passed in by the caller (an unhashable dynamic type would panic). R8: on every path of EmbedObject every piece of the message computed from the object is the output of encoding/json.Marshal(Indent) of the object itself (or a JSON-exact strconv integer/bool encoder of the asserted object), printed by %s/%v: the codec ExtractObject's json.Unmarshal inverts, for every dynamic type.",
 		NotDecided: "the behaviour of fmt, errors, strings, encoding/json and grpc status (trusted, calls into them are treated as pure functions); message texts that themselves contain the marker.",
 		Trusted:    []string{"fmt.Errorf(\"%w\") / errors.Is chain semantics", "google.golang.org/grpc/status.Code, status.Error, codes constants", "strings.Split / strings.Cut / strings.Contains / strings.Index semantics"},
 	})
@@ -556,6 +556,7 @@ func runC19(c *Ctx) {
 
 	// R4: the marker protocol of EmbedObject / ExtractObject
 	c.embedExtract(t, embedFn, extractFn)
+	c.c19codec(t, embedFn) // R8 (x_c19_i.go)
 
 	// R5: Is(err, target) is "the chain of err holds target, or the class of the code of err is target", decided in
 	// every scenario {status.Code(err) = each code} x {target = each class} x {errors.Is(err, target) true / false}
